@@ -96,7 +96,15 @@ HubIdle == \/ ~HubUp
            \/ /\ \A r \in Reqs : req[r].st # "sent" /\ ~FinishEnabled(r)
               /\ \A w \in Workers : toHub[w] = <<>> /\ (wopen[w] \/ wstate[w] = "stopped")
 
-Ev(ev, r, w, p, st) == [ev |-> ev, r |-> r, w |-> w, p |-> p, st |-> st, pre |-> Obs]
+\* fast = the event is performed right after the previous one, without waiting for the hub to go idle
+Ev(ev, r, w, p, st, fast) == [ev |-> ev, r |-> r, w |-> w, p |-> p, st |-> st, fast |-> fast, pre |-> Obs]
+
+\* the only thing the hub has not done yet is to read what worker w has just written
+OnlyOwnAnswerPending(w) ==
+  /\ HubUp
+  /\ toHub[w] # <<>>
+  /\ \A r \in Reqs : req[r].st # "sent" /\ ~FinishEnabled(r)
+  /\ \A v \in Workers \ {w} : toHub[v] = <<>> /\ (wopen[v] \/ wstate[v] = "stopped")
 
 StepEnabled(w, r) ==
   /\ pc[w][r] <= Len(FullSteps(w, r))
@@ -115,14 +123,17 @@ SendEnabled(r) ==
 GenSend(r) ==
   /\ HubIdle /\ SendEnabled(r)
   /\ Client_Send(r, plan[r])
-  /\ hist' = Append(hist, Ev("send", r, 0, 0, plan[r]))
+  /\ hist' = Append(hist, Ev("send", r, 0, 0, plan[r], FALSE))
   /\ UNCHANGED <<plan, script, pc>>
 
+\* A worker event happens when the hub is idle - except that a worker may also close its channel
+\* right behind its own answer, before the hub has read it (answer and hang-up arrive together).
 GenStep(w, r) ==
-  /\ HubIdle /\ StepEnabled(w, r)
+  /\ StepEnabled(w, r)
   /\ LET s == FullSteps(w, r)[pc[w][r]] IN
+     /\ HubIdle \/ (s.k = "close" /\ OnlyOwnAnswerPending(w))
      /\ IF s.k = "ans" THEN Worker_Answer(w, Id(w, r, s.p), s.st) ELSE Worker_Close(w)
-     /\ hist' = Append(hist, Ev(IF s.k = "ans" THEN "ans" ELSE "close", r, w, s.p, s.st))
+     /\ hist' = Append(hist, Ev(IF s.k = "ans" THEN "ans" ELSE "close", r, w, s.p, s.st, ~HubIdle))
   /\ pc' = [pc EXCEPT ![w][r] = @ + 1]
   /\ UNCHANGED <<plan, script>>
 
@@ -132,7 +143,7 @@ GenTick ==
   /\ \A r \in Reqs : ~SendEnabled(r)
   /\ \A w \in Workers, r \in Reqs : ~StepEnabled(w, r)
   /\ Tick(T)
-  /\ hist' = Append(hist, Ev("tick", 0, 0, 0, ""))
+  /\ hist' = Append(hist, Ev("tick", 0, 0, 0, "", FALSE))
   /\ UNCHANGED <<plan, script, pc>>
 
 GenHub == HubNext /\ UNCHANGED gvars
